@@ -222,8 +222,16 @@ def ivChecked (ns : Int) : Outcome Value :=
 
 def arith (op : ArithOp) (l r : Value) : Outcome Value :=
   match l, r with
-  | .timestamp d s f, .interval ns => tsAdd d s f ns
-  | .interval ns, .timestamp d s f => tsAdd d s f ns
+  | .timestamp d s f, .interval ns =>
+    -- timestamp + interval, timestamp - interval (`checked_sub_signed` = adding the negated interval); nothing else
+    match op with
+    | .add => tsAdd d s f ns
+    | .sub => tsAdd d s f (-ns)
+    | _ => .error .undefinedOperation
+  | .interval ns, .timestamp d s f =>
+    match op with
+    | .add => tsAdd d s f ns
+    | _ => .error .undefinedOperation
   | .null, _ => .ok .null
   | _, .null => .ok .null
   | .int x, .int y =>
